@@ -298,7 +298,7 @@ OptimisticLock::OptGuard::VerifyVersion()  //
   SpinWithBackoff(
       [](const std::atomic_uint64_t *lock, uint64_t *cur) -> bool {
         std::atomic_thread_fence(kRelease);
-        *cur = lock->load(kRelaxed);
+        *cur = lock->load(kAcquire);
         return (*cur & kXLock) == kNoLocks;
       },
       &(dest_->lock_), &cur);
@@ -401,7 +401,7 @@ OptimisticLock::CompositeGuard::VerifyVersion()  //
   SpinWithBackoff(
       [](const std::atomic_uint64_t *lock, uint64_t *cur) -> bool {
         std::atomic_thread_fence(kRelease);
-        *cur = lock->load(kRelaxed);
+        *cur = lock->load(kAcquire);
         return (*cur & kXLock) == kNoLocks;
       },
       &(dest_->lock_), &cur);
